@@ -29,13 +29,52 @@ def sanitize(s):
     s = re.sub(r'[^A-Za-z0-9_]+', '_', s)
     return s.strip('_')
 
-def strip_quals(name):
-    """drop every 'scope::' qualifier, also inside template argument lists"""
-    prev = None
-    while prev != name:
-        prev = name
-        name = re.sub(r'(?<![A-Za-z0-9_>])(?:[A-Za-z_][A-Za-z0-9_]*|\(anonymous namespace\))::(?=[A-Za-z_(])', '', name)
-    return name.replace(' ', '')
+def _split_scope(name):
+    """split a qualified name at top-level '::' (outside <>, ())"""
+    parts = []
+    depth = 0
+    cur = ''
+    i = 0
+    while i < len(name):
+        c = name[i]
+        if c in '<(':
+            depth += 1
+        elif c in '>)':
+            depth -= 1
+        if depth == 0 and name.startswith('::', i):
+            parts.append(cur)
+            cur = ''
+            i += 2
+            continue
+        cur += c
+        i += 1
+    parts.append(cur)
+    return parts
+
+def strip_quals(name, keep_tscopes=True):
+    """drop plain-identifier scope qualifiers (namespaces, non-template classes), also inside template
+    argument lists; template-id scopes are kept when keep_tscopes, else only the last component stays"""
+    name = name.strip()
+    # pointer / reference / cv decorations of template arguments stay attached
+    m = re.match(r'^(const\s+)?(.*?)(\s*[*&]+\s*(const)?)?$', name)
+    if m and (m.group(1) or m.group(3)) and '<' not in (m.group(3) or ''):
+        core = m.group(2)
+        return (m.group(1) or '').replace(' ', '') + strip_quals(core, keep_tscopes) + (m.group(3) or '').replace(' ', '')
+    from .ctypes_ import split_top
+    comps = _split_scope(name)
+    out = []
+    for k, comp in enumerate(comps):
+        lt = comp.find('<')
+        is_last = k == len(comps) - 1
+        if lt < 0 or not comp.endswith('>'):
+            if is_last:
+                out.append(comp.replace(' ', ''))
+            continue
+        if not is_last and not keep_tscopes:
+            continue
+        args = split_top(comp[lt + 1:-1])
+        out.append(comp[:lt] + '<' + ','.join(strip_quals(a, True) for a in args) + '>')
+    return '::'.join(out)
 
 class E:
     """A lowered expression: C text `s`; if it denotes `*p`, ptr = text of p."""
@@ -207,18 +246,21 @@ class Lowering:
                 rid = self._find_record_decl_id(n)
                 if rid:
                     alias_for_id[rid] = (n['name'][2:], n['type'].get('desugaredQualType') or n['type']['qualType'])
+        pending_typedefs = []
         for i, n in list(ix.by_id.items()):
             k = n.get('kind')
             if k in ('CXXRecordDecl', 'ClassTemplateSpecializationDecl') and n.get('completeDefinition'):
-                if n.get('isImplicit') or self._in_template_pattern(n):
+                if (n.get('isImplicit') and not self._is_lambda_record(n)) or self._in_template_pattern(n):
                     continue
                 printed = self.printed_name(n)
                 if i in alias_for_id:
                     cname, pstr = alias_for_id[i]
                     r = Record(n, printed, cname)
                     self.rec_by_name.setdefault(pstr, r)
+                    r.names = [printed, pstr]
                 else:
                     r = Record(n, printed, None)
+                    r.names = [printed]
                 r.is_lambda = self._is_lambda_record(n)
                 self.records[i] = r
                 if printed in self.rec_by_name and self.rec_by_name[printed] is not r and not r.is_lambda:
@@ -230,15 +272,31 @@ class Lowering:
                 self.enums[i] = (sanitize(printed), n)
                 self.enum_by_name.setdefault(printed, i)
             elif k in ('TypeAliasDecl', 'TypedefDecl'):
+                if self._in_template_pattern(n):
+                    continue
                 printed = self.printed_name(n)
                 t = n['type']
                 under = t.get('desugaredQualType') or t['qualType']
                 self.typedefs.setdefault(printed, under)
                 self.typedef_bare.setdefault(n.get('name'), set()).add(under)
+                pending_typedefs.append((n, under))
+        # typedefs nested in a record are reachable under every printed name of that record
+        for n, under in pending_typedefs:
+            p = self.ix.parent.get(n['id'])
+            if p is not None and p.get('id') in self.records:
+                for nm in self._all_names(self.records[p['id']]):
+                    self.typedefs.setdefault(nm + '::' + n['name'], under)
+        for i, r in list(self.records.items()):
+            for nm in self._all_names(r):
+                self.rec_by_name.setdefault(nm, r)
         # assign cnames of records: nested ones derive from their parent's cname
         for i, r in self.records.items():
             if r.cname is None:
                 r.cname = self._auto_record_cname(r)
+        # lambda captures: closure field k <-> captured declaration (from the LambdaExpr's capture initialisers)
+        for n in list(ix.by_id.values()):
+            pass
+        self._scan_lambdas()
         # gather members
         for i, r in self.records.items():
             for c in r.node.get('inner', ()):
@@ -286,6 +344,54 @@ class Lowering:
             p = self.ix.parent.get(p.get('id')) if p.get('id') else None
         return False
 
+    def _scan_lambdas(self):
+        def unwrap(x):
+            while x.get('kind') in ('ImplicitCastExpr', 'ParenExpr', 'ExprWithCleanups', 'CXXConstructExpr',
+                                    'MaterializeTemporaryExpr', 'CXXBindTemporaryExpr') and x.get('inner'):
+                cs = [c for c in x['inner'] if c]
+                if len(cs) != 1:
+                    break
+                x = cs[0]
+            return x
+        def walk(x):
+            for c in x.get('inner', ()):
+                if not isinstance(c, dict) or not c:
+                    continue
+                if c.get('kind') == 'LambdaExpr':
+                    cs = c.get('inner', [])
+                    if cs and cs[0].get('id') in self.records:
+                        r = self.records[cs[0]['id']]
+                        inits = [i for i in cs[1:] if i and i.get('kind') != 'CompoundStmt']
+                        r.capture_inits = inits
+                        r.captures = {}
+                        for k, ini in enumerate(inits):
+                            u = unwrap(ini)
+                            if u.get('kind') == 'DeclRefExpr':
+                                r.captures[u['referencedDecl']['id']] = k
+                            elif u.get('kind') == 'CXXThisExpr':
+                                r.captures['this'] = k
+                            elif u.get('kind') == 'UnaryOperator' and u.get('opcode') == '*':
+                                uu = unwrap(u['inner'][0])
+                                if uu.get('kind') == 'CXXThisExpr':
+                                    r.captures['*this'] = k
+                walk(c)
+        for d in self.ix.docs:
+            walk(d)
+
+    def _all_names(self, r):
+        """every printed spelling under which record r may appear (alias spellings of enclosing records included)"""
+        out = list(r.names)
+        p = self.ix.parent.get(r.node['id'])
+        while p is not None and p.get('kind') == 'ClassTemplateDecl':
+            p = self.ix.parent.get(p.get('id'))
+        if p is not None and p.get('id') in self.records and not r.is_lambda:
+            own = self._record_own_name(r.node)
+            for pn in self._all_names(self.records[p['id']]):
+                nm = pn + '::' + own
+                if nm not in out:
+                    out.append(nm)
+        return out
+
     def _is_templated_pattern(self, tmpl, fn):
         # the first function child of a FunctionTemplateDecl is the pattern (has dependent types);
         # specializations follow it
@@ -314,15 +420,39 @@ class Lowering:
             if pr.cname is None:
                 pr.cname = self._auto_record_cname(pr)
             return pr.cname + '_' + sanitize(self._record_own_name(r.node))
-        return sanitize(r.printed)
+        base = sanitize(r.printed)
+        if r.is_lambda:
+            # the same source lambda instantiated several times prints identically: number the closures
+            taken = self.__dict__.setdefault('_lambda_names', {})
+            k = taken.get(base, 0) + 1
+            taken[base] = k
+            if k > 1:
+                self.__dict__.setdefault('_ambiguous_lambda_names', set()).add(r.printed)
+                return '%s__%d' % (base, k)
+        return base
 
     # ------------------------------------------------------------------ type resolution
     def _resolve_name(self, name):
         if name.startswith('::'):
             name = name[2:]
+        te = getattr(self, 'type_exprs', None)
+        if te and ('sizeof(' in name or 'alignof(' in name):
+            for e, v in te.items():
+                if e in name:
+                    name = name.replace(e, v)
+        name = re.sub(r'(?<![A-Za-z0-9_])(\d+)(?:[uU][lL]{0,2}|[lL]{1,2}[uU]?)(?![A-Za-z0-9_])', r'\1', name)
+        # template arguments printed as unevaluated constant expressions ("1 - 1")
+        for _ in range(4):
+            m = re.search(r'(?<![A-Za-z0-9_])(\d+) ([-+]) (\d+)(?![A-Za-z0-9_])', name)
+            if not m:
+                break
+            v = int(m.group(1)) + int(m.group(3)) if m.group(2) == '+' else int(m.group(1)) - int(m.group(3))
+            name = name[:m.start()] + str(v) + name[m.end():]
         if name in STD_MAP:
             return ('base', STD_MAP[name], {'kind': 'builtin'})
         r = self.rec_by_name.get(name)
+        if r is not None and r.is_lambda and name in getattr(self, '_ambiguous_lambda_names', ()):
+            raise ExtractError('closure type %s is ambiguous (several instantiations); it can only be resolved from its LambdaExpr' % name)
         if r is not None:
             self.need_record(r)
             return ('base', ('union ' if r.is_union else 'struct ') + r.cname, {'kind': 'record', 'rec': r})
@@ -339,6 +469,8 @@ class Lowering:
                 info = dict(t[2]); info['atomic'] = True
                 return ('base', t[1], info)
             return ('atomicwrap', t) if False else self._mark_atomic(t)
+        if re.match(r'^std::(index_sequence|integer_sequence|make_index_sequence|integral_constant|true_type|false_type|in_place_t)\b', name):
+            return ('base', 'struct frgv_std_empty', {'kind': 'builtin', 'empty_std': True})
         if name.startswith('std::') and name[5:] in STD_MAP:
             return ('base', STD_MAP[name[5:]], {'kind': 'builtin'})
         # typedef printed without template arguments on the class (clang does this inside templates)
@@ -355,28 +487,75 @@ class Lowering:
         if not getattr(self, '_in_fallback', False):
             if not hasattr(self, '_stripped'):
                 self._stripped = {}
+                self._stripped_last = {}
                 for k in list(self.rec_by_name) + list(self.enum_by_name) + list(self.typedefs):
                     self._stripped.setdefault(strip_quals(k), set()).add(k)
+                    self._stripped_last.setdefault(strip_quals(k, False), set()).add(k)
             c = self._stripped.get(strip_quals(name), ())
+            if not c:
+                c = self._stripped_last.get(strip_quals(name, False), ())
             # distinct printed names may denote one record (alias key + own key)
             ids = {}
             for k in c:
                 r = self.rec_by_name.get(k)
                 ids[id(r) if r is not None else k] = k
+            if len(ids) > 1:
+                ids = self._prefer_context(ids)
             if len(ids) == 1:
                 self._in_fallback = True
                 try:
                     return self._resolve_name(next(iter(ids.values())))
                 finally:
                     self._in_fallback = False
+            # template-id printed with its defaulted trailing arguments suppressed
+            sn = strip_quals(name)
+            if sn.endswith('>'):
+                pre = sn[:-1] + ','
+                ids = {}
+                for sk, keys in self._stripped.items():
+                    if sk.startswith(pre):
+                        for k in keys:
+                            r = self.rec_by_name.get(k)
+                            ids[id(r) if r is not None else k] = k
+                if len(ids) == 1:
+                    self._in_fallback = True
+                    try:
+                        return self._resolve_name(next(iter(ids.values())))
+                    finally:
+                        self._in_fallback = False
         return None
+
+    def _prefer_context(self, ids):
+        """among several candidates prefer the one nested in the class whose member is being lowered"""
+        cur = getattr(self, 'current_rec', None)
+        while cur is not None:
+            pref = {}
+            for key, k in ids.items():
+                for nm in self._all_names(cur):
+                    if k.startswith(nm + '::'):
+                        pref[key] = k
+            if len(pref) == 1:
+                return pref
+            p = self.ix.parent.get(cur.node['id'])
+            while p is not None and p.get('kind') == 'ClassTemplateDecl':
+                p = self.ix.parent.get(p.get('id'))
+            cur = self.records.get(p.get('id')) if p is not None else None
+        return ids
 
     def _mark_atomic(self, t):
         return t   # pointers etc: atomic-ness is handled at the member-call site
 
     def ty(self, tnode_or_str):
+        lt = getattr(self, 'local_typedefs', None)
+        if lt:
+            if isinstance(tnode_or_str, dict):
+                tnode_or_str = {k: self._subst_local(v, lt) if isinstance(v, str) else v for k, v in tnode_or_str.items()}
+            else:
+                tnode_or_str = self._subst_local(tnode_or_str, lt)
         if isinstance(tnode_or_str, dict):
             s = tnode_or_str.get('desugaredQualType') or tnode_or_str['qualType']
+            if re.match(r'^(std::)?(va_list|__builtin_va_list|__gnuc_va_list)\b', tnode_or_str['qualType']):
+                s = tnode_or_str['qualType']      # keep va_list abstract (CBMC and gcc each have their own)
             try:
                 return self.tp.parse(s)
             except ExtractError:
@@ -384,6 +563,52 @@ class Lowering:
                     return self.tp.parse(tnode_or_str['qualType'])
                 raise
         return self.tp.parse(tnode_or_str)
+
+    def _subst_local(self, s, lt):
+        for _ in range(4):
+            prev = s
+            for name, under in lt.items():
+                s = re.sub(r'(?<![A-Za-z0-9_:])%s(?![A-Za-z0-9_:<])' % re.escape(name), lambda m: under, s)
+            if s == prev:
+                break
+        return s
+
+    def fn_type(self, node):
+        """function type of a declaration; a deduced return type printed as an unevaluated expression is
+        recovered from the type of a return statement's operand"""
+        key = node['id']
+        c = self.__dict__.setdefault('_fn_types', {})
+        if key in c:
+            return c[key]
+        try:
+            t = self.ty(node['type'])
+        except ExtractError:
+            rt = self._deduce_return_type(node)
+            if rt is None:
+                raise
+            ps = [self.ty(p['type']) for p in node.get('inner', ()) if p.get('kind') == 'ParmVarDecl']
+            t = ('fn', rt, ps, False)
+        c[key] = t
+        return t
+
+    def _deduce_return_type(self, n):
+        def walk(x):
+            for ch in x.get('inner', ()):
+                if not isinstance(ch, dict):
+                    continue
+                if ch.get('kind') == 'ReturnStmt':
+                    es = [e for e in ch.get('inner', ()) if e]
+                    if es and 'type' in es[0]:
+                        try:
+                            return self.ty(es[0]['type'])
+                        except ExtractError:
+                            pass
+                if ch.get('kind') != 'LambdaExpr':
+                    r = walk(ch)
+                    if r is not None:
+                        return r
+            return None
+        return walk(n)
 
     def rec_of_type(self, t):
         t = strip_ref(t)
@@ -535,6 +760,15 @@ class Lowering:
             sk = self._sig_kind(f) if (f.kind == 'ctor' or name == 'operator=') else None
             if sk:
                 return '%s_%s_%s' % (f.rec.cname, base, sk)
+            targs = [c for c in n.get('inner', ()) if c.get('kind') == 'TemplateArgument']
+            if targs:
+                ta = sanitize('_'.join(self._print_targs(targs)))
+                if ta and len(ta) <= 60:
+                    cand = '%s_%s__%s' % (f.rec.cname, base, ta)
+                    taken = self.__dict__.setdefault('_method_names', {})
+                    cid = self._canon_decl_id(n)
+                    if taken.setdefault(cand, cid) == cid:
+                        return cand
             # ordinal among same-named declarations of the record, in declaration order
             same = [m for m in f.rec.methods if m.get('name') == name and
                     not (self._sig_kind(Func(m, None, f.rec, f.kind)) if (f.kind == 'ctor' or name == 'operator=') else None)]
@@ -558,7 +792,16 @@ class Lowering:
         p = self.ix.parent.get(n['id'])
         if p is not None and p.get('kind') == 'LinkageSpecDecl' or n.get('mangledName', '_Z').startswith('_Z') is False:
             return name
+        if name.startswith('operator') and not (name[8:9].isalnum() or name[8:9] == '_'):
+            op = name[len('operator'):].strip()
+            ctx = self._context_name(n)
+            q = (ctx + '::' if ctx else '') + OPNAMES.get(op, 'op_' + sanitize(op))
         base = sanitize(q)
+        targs = [c for c in n.get('inner', ()) if c.get('kind') == 'TemplateArgument']
+        if targs:
+            ta = sanitize('_'.join(self._print_targs(targs)))
+            if ta and len(ta) <= 60:
+                base = base + '__' + ta
         # overloads / template specializations: add ordinal when the plain name is taken
         key = ('fn', base)
         lst = self.__dict__.setdefault('_fn_names', {}).setdefault(key, [])
@@ -592,4 +835,6 @@ class Lowering:
         if f.kind == 'dtor' and (n.get('isImplicit') or n.get('explicitlyDefaulted') == 'default'
                                  or 'explicitlyDefaulted' in n):
             return True
+        if n.get('name') == '__invoke' and f.rec is not None and f.rec.is_lambda:
+            return True      # static invoker of a captureless lambda (target of its function-pointer conversion)
         return False
